@@ -84,7 +84,10 @@ func TestVFC01Runtime(t *testing.T) {
 			nOps := rapid.IntRange(1, 2).Draw(t, fmt.Sprintf("p%d_n_ops", ph))
 			for k := 0; k < nOps; k++ {
 				label := fmt.Sprintf("p%d_op%d", ph, k)
-				kinds := []string{"set_rules", "filtering_config", "protection", "mode", "services"}
+				kinds := []string{"set_rules", "filtering_config", "protection", "protection", "mode", "services"}
+				if c.Protection == "paused_future" {
+					kinds = append(kinds, "protection", "protection", "protection")
+				}
 				if len(c.Block) > 0 {
 					kinds = append(kinds, "toggle_block", "toggle_block", "toggle_block")
 				}
@@ -158,7 +161,20 @@ func TestVFC01Runtime(t *testing.T) {
 					c.FilteringOn = !c.FilteringOn
 					call(http.MethodPost, "/control/filtering/config", map[string]any{"enabled": c.FilteringOn, "interval": 24})
 				case "protection":
-					switch rapid.SampledFrom([]string{"on", "off", "paused_future"}).Draw(t, label+"_state") {
+					if rapid.IntRange(0, 2).Draw(t, label+"_via_dns_config") == 0 || (c.Protection == "paused_future" && rapid.Bool().Draw(t, label+"_end_pause_via_dns_config")) {
+						if c.Protection == "paused_future" {
+							vfC01.Class("rt:protection_set_via_dns_config_during_pause")
+						}
+						// the general settings call sets the switch as well; an
+						// explicit value ends a pause
+						on := rapid.Bool().Draw(t, label+"_enabled")
+						c.Protection = map[bool]string{true: "on", false: "off"}[on]
+						call(http.MethodPost, "/control/dns_config", map[string]any{"protection_enabled": on})
+						vfC01.Class("rt:protection_via_dns_config")
+
+						break
+					}
+					switch rapid.SampledFrom([]string{"on", "off", "paused_future", "paused_future"}).Draw(t, label+"_state") {
 					case "on":
 						c.Protection = "on"
 						call(http.MethodPost, "/control/protection", map[string]any{"enabled": true})
